@@ -12,6 +12,7 @@ import (
 	"runtime/debug"
 	"sort"
 	"strings"
+	"time"
 
 	"github.com/0xrawsec/sod"
 )
@@ -141,6 +142,13 @@ func (w *World) call(api string, f func()) (panicked bool) {
 	stats.SetAdd("api", api)
 	stats.Count("api_calls", 1)
 	defer func() {
+		// a mutex still held when the call returns is leaked (lock monitor on)
+		lockLeakCheck(gid(), api)
+		for _, lv := range lockmonTakeKind("lock-leak") {
+			w.fail(lv.Kind, api, lv.Class+"@"+lv.Site, lv.Detail)
+		}
+	}()
+	defer func() {
 		if r := recover(); r != nil {
 			panicked = true
 			st := string(debug.Stack())
@@ -263,10 +271,19 @@ func (w *World) Abandon() {
 
 func (w *World) CloseAll() {
 	for _, h := range w.handles {
-		func() {
+		// cleanup must never hang the child: a handle whose lock was leaked by
+		// the code under test is abandoned
+		done := make(chan struct{})
+		go func(h *sod.DB) {
+			defer close(done)
 			defer func() { recover() }()
 			h.Close()
-		}()
+		}(h)
+		select {
+		case <-done:
+		case <-time.After(3 * time.Second):
+			stats.Count("handles_abandoned_at_cleanup", 1)
+		}
 	}
 	w.handles = nil
 	clockReleaseAll()
